@@ -587,10 +587,11 @@ static int ini_exists (PIniFile *f, int sec, int key) {
 	char sn[16], kn[16]; snprintf (sn, sizeof sn, "s%d", sec); snprintf (kn, sizeof kn, "k%d", key);
 	return p_ini_file_is_key_exists (f, sn, kn); }
 /* layout of the files (must agree with PV.Model.Res.iniFiles; cross-checked by the check through `inidesc`) */
-static const int ini_layout[3][8][8] = {
+static const int ini_layout[4][8][8] = {
 	{ { -1 } },
 	{ { 0, 1, -1 }, { -1 } },                              /* ini1: [s0] k0 k1 */
 	{ { 0, 1, -1 }, { -2 }, { 2, 3, 5, -1 }, { -1 } },     /* ini2: [s0] k0 k1   [s1] (empty)   [s2] k2 k3 k5 */
+	{ { 0, 1, -1 }, { -1 } },                              /* ini3: k6 k7 k4 before any section (ignored)   [s0] k0 k1 */
 };
 /* every expected (section, key) pair is there */
 static int ini_complete (PIniFile *file, int f) {
@@ -600,7 +601,7 @@ static int ini_complete (PIniFile *file, int f) {
 /* what the object really holds (keys may have landed in another section when a header line was lost) */
 static int ini_keys_present (PIniFile *file, int sec) { int n = 0; for (int k = 0; k < 8; k++) if (ini_exists (file, sec, k)) n++; return n; }
 static int ini_secs_present (PIniFile *file) { int n = 0; for (int s = 0; s < 8; s++) if (ini_keys_present (file, s) > 0) n++; return n; }
-static char c_ini_new (char **av) { int d = ai (av, 1), f = ai (av, 2); LIB (); EMPTY (d); if (f < 0 || f > 2) return '-';
+static char c_ini_new (char **av) { int d = ai (av, 1), f = ai (av, 2); LIB (); EMPTY (d); if (f < 0 || f > 3) return '-';
 	char path[512]; snprintf (path, sizeof path, "%s/ini%d.ini", scratch, f);
 	PIniFile *r = p_ini_file_new (path); if (!r) return 'F'; put (d, T_INI, r); S[d].a = f; return 'S'; }
 static char c_ini_parse (char **av) { int d = ai (av, 1), e = ai (av, 2); LIB (); NEED (d, T_INI); ERRARG (e, d);
